@@ -83,11 +83,11 @@ case "$cmd" in
     shift
     exec "$BIN/simcheck" selftest "$@"
     ;;
-  C12|C13|C14|C15)
+  C12|C14)
     build_locked || exit 2
     exec "$BIN/simcheck" run "$cmd" "${2:-${VERIF_TIER:-quick}}"
     ;;
-  C09|C10|C11)
+  C09|C10|C11|C13|C15)
     build_locked race || exit 2
     exec "$BIN/simcheck" run "$cmd" "${2:-${VERIF_TIER:-quick}}"
     ;;
